@@ -449,6 +449,40 @@ Theorem eager_model_never_flags :
 Proof. exact eager_never_flagged. Qed.
 Print Assumptions eager_model_never_flags.
 
+(* [linearisation c t] (Model/CallbacksEager.v): t is a permutation of c in which every two
+   operations that are NOT independent keep the order they have in c (the operations of one unit;
+   the creation of a context and the operations that read it).  Every linearisation of a
+   duplicate-free schedule is reached by exchanges of adjacent independent operations: *)
+Theorem linearisations_are_reorderings :
+  forall (t c : list op), NoDup c -> linearisation c t -> reorder c t.
+Proof. exact linearisation_reorder. Qed.
+Print Assumptions linearisations_are_reorderings.
+
+(* ... and conversely: the reorderings are exactly the linearisations of the causal order *)
+Theorem reorderings_are_linearisations :
+  forall (c t : list op), reorder c t -> linearisation c t.
+Proof. exact reorder_linearisation. Qed.
+Print Assumptions reorderings_are_linearisations.
+
+(* the operations of a graph run are pairwise distinct *)
+Theorem run_operations_distinct :
+  forall is_stream g ginf opts stages,
+    NoDup (g :: stages_uids stages) -> NoDup (graph_ops is_stream g ginf opts stages).
+Proof. exact graph_ops_NoDup. Qed.
+Print Assumptions run_operations_distinct.
+
+(* ... so: for EVERY linearisation of the causal order of the canonical schedule - every
+   execution that performs the run's operations, each unit's in their order, every context
+   created before it is read - every executed unit is served exactly its expected events *)
+Theorem causal_executions_exactly_once_paired :
+  forall w is_stream g ginf opts stages t,
+    NoDup (g :: stages_uids stages) ->
+    linearisation (graph_ops is_stream g ginf opts stages) t ->
+    forall e, In e (graph_table is_stream g ginf opts stages) ->
+      filter (of_unit (ue_unit e)) (st_log (run_script true w t)) = uexp_events w e.
+Proof. exact linearisation_unit_logs. Qed.
+Print Assumptions causal_executions_exactly_once_paired.
+
 (* every schedule of the program tree ends with the graph's own end-or-error callback ... *)
 Theorem tree_schedules_end_with_the_graph :
   forall is_stream g ginf opts stages t,
@@ -473,12 +507,13 @@ Definition eg_eager : list op :=
 Example eager_nonvacuous :
   NoDup (0 :: stages_uids eg_stages) /\
   reorder (graph_ops false 0 0 eg_opts eg_stages) eg_eager /\
+  linearisation (graph_ops false 0 0 eg_opts eg_stages) eg_eager /\
   ~ traces (graph_prog false 0 0 eg_opts eg_stages) eg_eager /\
   filter (of_unit 2) (st_log (run_script true (w_plain [9]) eg_eager)) =
     [Ev 2 9 TStart 2; Ev 2 5 TStart 2; Ev 2 1 TStart 2; Ev 2 1 TEnd 2; Ev 2 5 TEnd 2; Ev 2 9 TEnd 2].
 Proof.
   split; [vm_compute; repeat (constructor; [simpl; intuition discriminate|]); constructor|].
-  split.
+  assert (RO : reorder (graph_ops false 0 0 eg_opts eg_stages) eg_eager); [|split; [exact RO|split; [now apply reorderings_are_linearisations|]]].
   - assert (I : forall o, In o [OAppend (Some 0) 2 2 [[5]]; OOn 2 TStart; OOn 2 TEnd] -> indep o (OOn 0 TError)).
     { intros o [<-|[<-|[<-|[]]]]; (split; [simpl; discriminate|]); split; simpl; intros u E; try discriminate;
         injection E as <-; intros [H|[]]; discriminate. }
